@@ -9,37 +9,63 @@ set_option linter.unusedVariables false
 namespace Rpft.Compile
 open Rpft
 
-/-- same blocks with the same children, same stack -/
-def BlkEq (s s' : St) : Prop :=
-  s'.stack = s.stack ∧ ∀ (j : Nat) (cs : List Nat), s'.groups[j]? = some (Grp.block cs) ↔ s.groups[j]? = some (Grp.block cs)
+/-- a row group keeps its first node (nodes are only attached behind) -/
+def RowHead (s s' : St) : Prop :=
+  ∀ (j i : Nat) (l : List Nat) (t : Str), s.groups[j]? = some (Grp.row (i :: l) t) →
+    ∃ l', s'.groups[j]? = some (Grp.row (i :: l') t)
 
-theorem BlkEq.refl (s : St) : BlkEq s s := ⟨rfl, fun _ _ => Iff.rfl⟩
+/-- same blocks with the same children, same stack; the group arena did not shrink; row groups
+keep their first node -/
+def BlkEq (s s' : St) : Prop :=
+  s'.stack = s.stack ∧
+  (∀ (j : Nat) (cs : List Nat), s'.groups[j]? = some (Grp.block cs) ↔ s.groups[j]? = some (Grp.block cs)) ∧
+  s.groups.size ≤ s'.groups.size ∧ RowHead s s' ∧ s.nodes.size ≤ s'.nodes.size
+
+theorem BlkEq.refl (s : St) : BlkEq s s :=
+  ⟨rfl, fun _ _ => Iff.rfl, Nat.le_refl _, fun j i l t h => ⟨l, h⟩, Nat.le_refl _⟩
 
 theorem BlkEq.trans {s t u : St} (h : BlkEq s t) (h' : BlkEq t u) : BlkEq s u :=
-  ⟨h'.1.trans h.1, fun j cs => (h'.2 j cs).trans (h.2 j cs)⟩
+  ⟨h'.1.trans h.1, fun j cs => (h'.2.1 j cs).trans (h.2.1 j cs), Nat.le_trans h.2.2.1 h'.2.2.1,
+    fun j i l t hg => by
+      obtain ⟨l', hl'⟩ := h.2.2.2.1 j i l t hg
+      exact h'.2.2.2.1 j i l' t hl', Nat.le_trans h.2.2.2.2 h'.2.2.2.2⟩
 
-theorem BlkEq.of_groups {s s' : St} (h : s'.groups = s.groups) (hs : s'.stack = s.stack) : BlkEq s s' :=
-  ⟨hs, fun j cs => by rw [h]⟩
+theorem BlkEq.of_groups {s s' : St} (h : s'.groups = s.groups) (hs : s'.stack = s.stack)
+    (hn : s.nodes.size ≤ s'.nodes.size) : BlkEq s s' :=
+  ⟨hs, fun j cs => by rw [h], by rw [h]; exact Nat.le_refl _, fun j i l t hg => ⟨l, by rw [h]; exact hg⟩, hn⟩
 
-/-- overwriting a non-block by a non-block -/
+/-- overwriting a non-block by a non-block (a row group only by a row group with the same first node) -/
 theorem BlkEq.set {s : St} {g : Nat} {old new : Grp} (ho : s.groups[g]? = some old)
-    (h1 : ∀ cs, old ≠ .block cs) (h2 : ∀ cs, new ≠ .block cs) (s' : St)
-    (hg : s'.groups = s.groups.setIfInBounds g new) (hs : s'.stack = s.stack) : BlkEq s s' := by
-  refine ⟨hs, fun j cs => ?_⟩
-  rw [hg, Array.getElem?_setIfInBounds]
+    (h1 : ∀ cs, old ≠ .block cs) (h2 : ∀ cs, new ≠ .block cs)
+    (h3 : ∀ i l t, old = .row (i :: l) t → ∃ l', new = .row (i :: l') t) (s' : St)
+    (hg : s'.groups = s.groups.setIfInBounds g new) (hs : s'.stack = s.stack)
+    (hn : s.nodes.size ≤ s'.nodes.size) : BlkEq s s' := by
   have hlt : g < s.groups.size := (Array.getElem?_eq_some_iff.mp ho).1
-  by_cases hj : g = j
-  · subst hj
-    simp only [hlt, if_true]
-    constructor
-    · intro e; injection e with e; exact absurd e (h2 cs)
-    · intro e; rw [ho] at e; injection e with e; exact absurd e (h1 cs)
-  · simp [hj]
+  refine ⟨hs, fun j cs => ?_, by rw [hg]; simp, ?_, hn⟩
+  · rw [hg, Array.getElem?_setIfInBounds]
+    by_cases hj : g = j
+    · subst hj
+      simp only [hlt, if_true]
+      constructor
+      · intro e; injection e with e; exact absurd e (h2 cs)
+      · intro e; rw [ho] at e; injection e with e; exact absurd e (h1 cs)
+    · simp [hj]
+  · intro j i l t hgj
+    rw [hg, Array.getElem?_setIfInBounds]
+    by_cases hj : g = j
+    · subst hj
+      rw [ho] at hgj
+      injection hgj with hgj
+      obtain ⟨l', hl'⟩ := h3 i l t hgj
+      exact ⟨l', by simp [hlt, hl']⟩
+    · exact ⟨l, by simp [hj, hgj]⟩
 
 theorem BlkEq.set' {s : St} {g : Nat} {old new : Grp} (ho : s.groups[g]? = some old)
-    (h1 : ∀ cs, old ≠ .block cs) (h2 : ∀ cs, new ≠ .block cs) (nodes : Array NodeM) (next : Nat) :
+    (h1 : ∀ cs, old ≠ .block cs) (h2 : ∀ cs, new ≠ .block cs)
+    (h3 : ∀ i l t, old = .row (i :: l) t → ∃ l', new = .row (i :: l') t) (nodes : Array NodeM) (next : Nat)
+    (hn : s.nodes.size ≤ nodes.size) :
     BlkEq s { s with nodes := nodes, next := next, groups := s.groups.setIfInBounds g new } :=
-  BlkEq.set ho h1 h2 _ rfl rfl
+  BlkEq.set ho h1 h2 h3 _ rfl rfl hn
 
 theorem mostRecentIn_blkEq {gs gs' : Array Grp}
     (h : ∀ (j : Nat) (cs : List Nat), gs'[j]? = some (Grp.block cs) ↔ gs[j]? = some (Grp.block cs)) :
@@ -82,15 +108,15 @@ theorem mostRecentIn_blkEq {gs gs' : Array Grp}
 
 theorem BlkEq.mostRecent {s s' : St} (h : BlkEq s s') :
     mostRecentIn s'.groups s'.stack = mostRecentIn s.groups s.stack := by
-  rw [h.1]; exact mostRecentIn_blkEq h.2 _
+  rw [h.1]; exact mostRecentIn_blkEq h.2.1 _
 
 def BlkStep {α} (m : M α) : Prop := ∀ s, wp m s (fun _ s' => BlkEq s s')
 
 theorem BFrame.blk {α} {m : M α} (h : BFrame m) : BlkStep m := by
   intro s
   refine wp_mono (h s) ?_
-  intro _ s' ⟨h1, h2, _⟩
-  exact BlkEq.of_groups h1 h2
+  intro _ s' ⟨h1, h2, h3⟩
+  exact BlkEq.of_groups h1 h2 (by rw [h3]; exact Nat.le_refl _)
 
 theorem BlkStep.forM {β} (l : List β) (f : β → M PUnit) (hf : ∀ x ∈ l, BlkStep (f x)) : BlkStep (l.forM f) := by
   intro s
@@ -109,7 +135,11 @@ theorem routerBehind_blk (g : Nat) (nodes : List Nat) (rowType : Str) (i : Nat) 
   refine wp_mono (newSwitch_spec _ _ _ _) ?_
   intro sw s1 ⟨k, hb, _⟩
   subst hb
-  exact BlkEq.set hg (by intro cs e; cases e) (by intro cs e; cases e) _ rfl rfl
+  refine BlkEq.set hg (by intro cs e; cases e) (by intro cs e; cases e) ?_ _ rfl rfl (by simp) 
+  intro i l t e
+  injection e with e1 e2
+  subst e1; subst e2
+  exact ⟨l ++ [s.nodes.size], rfl⟩
 
 theorem rowExitCond_blk (g : Nat) (nodes : List Nat) (rowType : Str) (i : Nat) (n : NodeM) (d : Dest)
     (c : Cond) (s : St) (hg : s.groups[g]? = some (.row nodes rowType)) :
@@ -173,8 +203,8 @@ theorem addExit_blk : ∀ fuel g d c, BlkStep (addExit fuel g d c) := by
         intro _ s3 h3
         rename_i parents _ _ _ _ _ _
         have b1 := BlkEq.set' hgrp (new := .noop parents (some s.nodes.size)) (by intro cs e; cases e)
-          (by intro cs e; cases e)
-        exact ((b1 _ _).trans h2).trans h3
+          (by intro cs e; cases e) (by intro i l t e; cases e)
+        exact ((b1 _ _ (by simp)).trans h2).trans h3
       · exact (noopRouterExit_frame _ d c).blk s
 
 end Rpft.Compile
